@@ -151,10 +151,23 @@ def load_plan(pid):
     return m
 
 
+_borrow_depth = 0
+
+
 def borrow(pid, names, tier):
-    """Obligations of another property's plan, decided again as part of this one (shared harness files)."""
+    """Obligations of another property's plan, decided again as part of this one (shared harness files).
+    Only a plan's OWN obligations can be borrowed: while a plan is being evaluated for a borrower its own borrow() calls
+    yield nothing, which also keeps mutual borrowing (C07 -> C01 -> C20 -> C07) from recursing."""
+    global _borrow_depth
+    if _borrow_depth > 0:
+        return []
     out = []
-    for o in load_plan(pid).obligations(tier):
+    _borrow_depth += 1
+    try:
+        theirs = load_plan(pid).obligations(tier)
+    finally:
+        _borrow_depth -= 1
+    for o in theirs:
         if o.name in names:
             if not o.harness.startswith("../"):
                 o.harness = "../%s/%s" % (pid, o.harness)
